@@ -17,10 +17,12 @@ QUICK = [
     ("S2", HOLD_DESC, 1, "IDS"),
     ("S0", DROP_ASC, 3, "IDS"),
     ("S2r", DROP_ASC, 1, "IDS"),
+    ("S6", DROP_ASC, 1, "IDS"),
+    ("S4", HOLD_DESC, 1, "IDS"),
 ]
 THOROUGH = []
 for _c in (DROP_ASC, HOLD_DESC, DROP_DESC, HOLD_ASC):
-    THOROUGH += [("S1", _c, 3, "IDS"), ("S2", _c, 2, "IDS"), ("S0", _c, 4, "IDS"), ("S2r", _c, 2, "IDS"), ("S4", _c, 2, "IDS")]
+    THOROUGH += [("S1", _c, 3, "IDS"), ("S2", _c, 2, "IDS"), ("S0", _c, 4, "IDS"), ("S2r", _c, 2, "IDS"), ("S4", _c, 2, "IDS"), ("S6", _c, 2, "IDS")]
 
 P = TreeProp(
     "C06",
